@@ -266,6 +266,7 @@ func (e *Effects) applySummary(fn *ssa.Function, s *fnState, sum *Summary, site 
 			ar, ac := s.substF(ri, a, ef.CT, e)
 			vr, vc := substSet(ef.Val)
 			e.emit(fn, s, ar, ef.Loc, ef.CT, ef.Pos, ef.Fn, v2, vr, ef.ValT.sorted()...)
+			s.storeRegion(ar, ef.Loc, vr, vc)
 			for cc := range ac {
 				s.touch(cc)
 				for r := range vr {
